@@ -56,7 +56,20 @@ func (spec *Spec) Validate() error {
 		return fmt.Errorf("sourceNamespace and template cannot be specified at the same time")
 	}
 
+	if spec.Template != "" {
+		// reload panics on a template that does not parse
+		if _, err := parseTemplate(spec); err != nil {
+			return fmt.Errorf("invalid template: %v", err)
+		}
+	}
+
 	return nil
+}
+
+func parseTemplate(spec *Spec) (*template.Template, error) {
+	t := template.New("").Delims(spec.LeftDelim, spec.RightDelim)
+	t.Funcs(sprig.TxtFuncMap()).Funcs(extraFuncs)
+	return t.Parse(spec.Template)
 }
 
 func (b *Builder) reload(spec *Spec) {
@@ -64,9 +77,7 @@ func (b *Builder) reload(spec *Spec) {
 		return
 	}
 
-	t := template.New("").Delims(spec.LeftDelim, spec.RightDelim)
-	t.Funcs(sprig.TxtFuncMap()).Funcs(extraFuncs)
-	b.template = template.Must(t.Parse(spec.Template))
+	b.template = template.Must(parseTemplate(spec))
 }
 
 func (b *Builder) build(data map[string]interface{}, v interface{}) error {
